@@ -9,7 +9,9 @@ those calls on a mirror of `Unit.entries`, resolves the result to the Model's `T
 
 ```
 wunit <variant> <le|be> S <n> <hex>*n L <n> <hex>*n U <n> <unit>*n
-unit  := <version> <32|64> <address size> <line program: -> <nops> <op>*nops
+unit  := <version> <32|64> <address size> <lp> R <n> <rl>*n Q <n> <ll>*n <nops> <op>*nops
+lp    := - | P<nfiles>@<offset> | E<nfiles>@<offset>     (program with / without a sequence)
+rl    := <n> (<begin> <length>)*n        ll := <n> (<begin> <length> <hex expression>)*n
 op    := R | A <id> <parent> <tag> <sibling 0|1> <nattrs> <attr>*  | E <id> <sibling 0|1> <nattrs> <attr>*
        | X <parent> <id>
 attr  := <name> <kind> <payload…>
@@ -33,7 +35,13 @@ structure EntryB where
 
 structure UnitB where
   enc : Enc
+  /-- `.debug_line` offset of the program, if the unit has one -/
   lineProgram : Option Nat
+  /-- the program has instructions (`P`) -/
+  lpRows : Bool := false
+  nfiles : Nat := 0
+  nrl : Nat := 0
+  nll : Nat := 0
   entries : Array EntryB
   reserved : Nat
 
@@ -128,8 +136,16 @@ def attrVal (u : Nat) : P AttrVal := do
   | "irefsym" => do let _ ← natLt (2 ^ 64); pure .debugInfoRefSym
   | "irefsup" => pure (.debugInfoRefSup (← natLt (2 ^ 64)))
   | "lpref" => pure .lineProgramRef
-  | "loclist" => pure (.locationListRef (← natLt (2 ^ 64)))
-  | "rnglist" => pure (.rangeListRef (← natLt (2 ^ 64)))
+  | "loclist" => do
+    let k ← nat
+    match (← get).units[u]? with
+    | some ub => if k < ub.nll then pure (.locationListRef (← natLt (2 ^ 64))) else failure
+    | none => failure
+  | "rnglist" => do
+    let k ← nat
+    match (← get).units[u]? with
+    | some ub => if k < ub.nrl then pure (.rangeListRef (← natLt (2 ^ 64))) else failure
+    | none => failure
   | "macinfo" => pure (.debugMacinfoRef (← natLt (2 ^ 64)))
   | "macro" => pure (.debugMacroRef (← natLt (2 ^ 64)))
   | "sig8" => pure (.debugTypesRef (← natLt (2 ^ 64)))
@@ -148,7 +164,12 @@ def attrVal (u : Nat) : P AttrVal := do
   | "enc" | "dsign" | "endy" | "acc" | "vis" | "virt" | "idcase" | "cc" | "inl" | "ord" => cls (2 ^ 8)
   | "lang" => cls (2 ^ 16)
   | "aclass" => cls (2 ^ 64)
-  | "file0" => pure (.constClass 0)
+  | "file0" => pure (.fileIndex none)
+  | "file" => do
+    let k ← nat
+    match (← get).units[u]? with
+    | some ub => if ub.lineProgram.isSome ∧ k < ub.nfiles then pure (.fileIndex (some (k + 1))) else failure
+    | none => failure
   | _ => failure
 
 /-- `<nattrs> <attr>*`, applied with `DebuggingInformationEntry::set` -/
@@ -218,13 +239,48 @@ def unitP (u : Nat) : P PUnit := do
   let format ← (match format? fmt with | some f => pure f | none => failure : P Format)
   let asz ← natLt (2 ^ 8)
   let lp ← tok
-  let lineProgram ← (if lp = "-" then pure none else
-    match lp.toNat? with | some n => pure (some n) | none => failure : P (Option Nat))
+  let (lineProgram, lpRows, nfiles) ← (if lp = "-" then pure (none, false, 0) else
+    match lp.toList with
+    | c :: rest =>
+      if c = 'P' ∨ c = 'E' then
+        match (String.ofList rest).splitOn "@" with
+        | [nf, off] =>
+          match nf.toNat?, off.toNat? with
+          | some nf, some off => if nf < 16 ∧ off < 2 ^ 64 then pure (some off, c = 'P', nf) else failure
+          | _, _ => failure
+        | _ => failure
+      else failure
+    | [] => failure : P (Option Nat × Bool × Nat))
+  expect "R"
+  let nrl ← natLt 16
+  for _ in [0:nrl] do
+    let n ← natLt 8
+    for _ in [0:n] do
+      let b ← natLt 100; let len ← natLt 100
+      if b = 0 ∨ len = 0 then failure
+  expect "Q"
+  let nll ← natLt 16
+  for _ in [0:nll] do
+    let n ← natLt 8
+    for _ in [0:n] do
+      let b ← natLt 100; let len ← natLt 100
+      if b = 0 ∨ len = 0 then failure
+      let _ ← hexTok
+  -- the line-program and list writers are opaque here: only encodings they cannot fail on
+  if (lineProgram.isSome ∨ nrl > 0 ∨ nll > 0) ∧
+      ¬ (2 ≤ version ∧ version ≤ 5 ∧ (asz = 1 ∨ asz = 2 ∨ asz = 4 ∨ asz = 8)) then failure
   modUnit u (fun ub => some { ub with enc := { version := version, format := format, addrSize := asz },
-                                       lineProgram := lineProgram })
+                                       lineProgram := lineProgram, lpRows := lpRows, nfiles := nfiles,
+                                       nrl := nrl, nll := nll })
   let nops ← natLt 4096
   for _ in [0:nops] do
     op u
+  -- `have_base_address` of the list writers is not modelled
+  let s ← get
+  match s.units[u]? with
+  | some ub =>
+    if (ub.nrl > 0 ∨ ub.nll > 0) ∧ (ub.entries[0]!).attrs.any (fun a => a.1 = 0x11) then failure
+  | none => failure
 
 def strTable : P (StrTab × Array Nat) := do
   let n ← natLt 4096
@@ -262,9 +318,14 @@ def request : P (Endian × StrTab × StrTab × List UnitIn) := do
     unitP u
   let s ← get
   if !s.toks.isEmpty then failure
+  -- `line_program_in_use()`: a program with instructions, or any entry (attached or not) with
+  -- `FileIndex(Some(_))`
+  let inUse (ub : UnitB) : Bool :=
+    ub.lineProgram.isSome && (ub.lpRows || ub.entries.any (fun en => en.attrs.any (fun a =>
+      match a.2 with | .fileIndex (some _) => true | _ => false)))
   let units := s.units.toList.map (fun ub =>
     ({ enc := ub.enc, nEntries := ub.entries.size, root := buildTree ub.entries 0,
-       lineProgram := ub.lineProgram } : UnitIn))
+       lineProgram := if inUse ub then ub.lineProgram else none } : UnitIn))
   pure (e, strs, lstrs, units)
 
 def handle (op : String) (args : List String) : Option String :=
